@@ -378,9 +378,12 @@ class Interp(object):
                 if s is None or s not in cfg.blocks:
                     continue
                 if br is not None:
-                    ws = []
-                    for w in worlds:
-                        ws.extend(self._cond(f, br[0], w, idx == 0, nullvars))
+                    ws = worlds
+                    for cnd in cfg.branch_conds(b):
+                        nxt = []
+                        for w in ws:
+                            nxt.extend(self._cond(f, cnd, w, idx == 0, nullvars))
+                        ws = _uniq(nxt)
                 else:
                     ws = worlds
                 ws = [w for w in ws if not self.infeasible(w)]
